@@ -18,7 +18,7 @@ pub fn plan(tier: Tier) -> Vec<String> {
     for i in 0..12 {
         v.push(format!("grpcat:{i}"));
     }
-    for i in 0..tier.pick(1500, 60_000) {
+    for i in 0..tier.pick(3000, 60_000) {
         v.push(format!("grphist:{i}"));
     }
     v
